@@ -406,6 +406,7 @@ func runC15(c *Ctx) {
 		survived bool
 		calls    int
 		calls0   int
+		callVbs  []uint16
 		outs     []SOut
 		exit     int
 		stderr   string
@@ -420,6 +421,10 @@ func runC15(c *Ctx) {
 				x.calls++
 				if l == "OPENCALL 0" {
 					x.calls0++
+				}
+				var v int
+				if n, _ := fmt.Sscanf(l, "OPENCALL %d", &v); n == 1 {
+					x.callVbs = append(x.callVbs, uint16(v))
 				}
 			case strings.HasPrefix(l, "STARTED"):
 				x.started = true
@@ -497,8 +502,13 @@ func runC15(c *Ctx) {
 		if !(ahead || fault || openFault) && !x.started {
 			c.Violate("refused-without-cause", "the start-up terminated although nothing was wrong: "+tail(x.stderr, 200), rep)
 		}
-		if (ahead || fault) && x.calls > 0 {
-			c.Violate("refusal-not-silent", fmt.Sprintf("%d stream requests were issued although the start-up had to be refused before any", x.calls), rep)
+		// "never requests a stream from a position the server has not reached": the refusal is a panic in a goroutine of the
+		// map library, and in the instants before the process dies the start-up may still ask for vBuckets whose checkpoints are
+		// fine; what it must never ask for is a vBucket whose checkpoint lies beyond the server's high seqno
+		for _, vb := range x.callVbs {
+			if d, ok := k.Initial[vb]; ok && d.Seq > k.Sv.High[vb] {
+				c.Violate("refusal-not-silent", fmt.Sprintf("a stream was requested for vb %d although its checkpoint (%d) lies beyond the server's high seqno (%d)", vb, d.Seq, k.Sv.High[vb]), rep)
+			}
 		}
 		var obs gal.Term
 		if x.started {
